@@ -181,6 +181,33 @@ def grid_content_ok(m: np.ndarray, counts: list[int], rng_: list[tuple[float, fl
     return None
 
 
+def export_call(verdict, stats, what, replay, fn):
+    """Run one call of the exporter on an input INSIDE the property's quantifier (well-formed engine with 1-4 inputs,
+    v = 1..2000): an exception raised by the implementation is a concrete violation, not a harness crash."""
+    try:
+        return True, fn()
+    except Exception as ex:  # noqa
+        verdict.add_violation("fld:export-raises", f"{what} raises {type(ex).__name__}: {ex}", replay)
+        stats["oracle_violations"] += 1
+        stats["export_raises"] += 1
+        return False, None
+
+
+def shape_engine_fll(fl, n):
+    """the same engine as shape_engine, imported from FLL: its ranges are numpy.float64, not Python floats"""
+    L = [f"Engine: shape{n}"]
+    for j, (a, b) in enumerate(RANGES[:n]):
+        L += [f"InputVariable: i{j}", "  enabled: true", f"  range: {a!r} {b!r}", "  lock-range: false"]
+    return fl.FllImporter().from_string("\n".join(L) + "\n")
+
+
+def floatify(engine):
+    """ranges as plain Python floats (what an engine built directly in Python has)"""
+    for var in list(engine.input_variables) + list(engine.output_variables):
+        var.minimum, var.maximum = float(var.minimum), float(var.maximum)
+    return engine
+
+
 def shape_part(ctx, fl, verdict, stats):
     S = fl.FldExporter.ScopeOfValues
     cap = make_capture(fl)
@@ -199,7 +226,10 @@ def shape_part(ctx, fl, verdict, stats):
                 if not is_all and v**n > each_limit:
                     stats["each_skipped_too_large"] += 1
                     continue
-                cap.write_from_scope(eng, io.StringIO(), v, sc)
+                ok, _ = export_call(verdict, stats, f"FldExporter.write_from_scope(engine with {n} inputs (float ranges {RANGES[:n]}), writer, values={v}, scope={sc.name})",
+                                    {"kind": "raises", "v": v, "n": n, "all": is_all, "ranges": "float"}, lambda: cap.write_from_scope(eng, io.StringIO(), v, sc))
+                if not ok:
+                    continue
                 m = cap.captured
                 p = int(round(pow(v, 1.0 / n)))  # the same expression as exporter.py (start of the integer correction loops)
                 kobs = [len(set(m[:, j].tolist())) for j in range(n)]
@@ -224,6 +254,28 @@ def shape_part(ctx, fl, verdict, stats):
                     stats["oracle_violations"] += 1
                 lits.append(f"({cbool(is_all)}, {v}, {n}%nat, {p}, ({m.shape[0]}, {kobs[0]}, {crow(m[0])}, {crow(m[-1])}, {vlib.fhex(py_checksum(m))}))")
                 index.append(("shape", "all" if is_all else "each", v, n))
+    # the same grids on engines imported from FLL (numpy.float64 ranges): one-point grids and their neighbours, direct oracle
+    for n in range(1, 5):
+        eng = shape_engine_fll(fl, n)
+        for v in sorted({1, 2, 2**n - 1, 2**n, 3**n}):
+            for sc in (S.AllVariables, S.EachVariable):
+                is_all = sc == S.AllVariables
+                if not is_all and v**n > each_limit:
+                    continue
+                with np.errstate(all="ignore"):
+                    ok, _ = export_call(verdict, stats, f"FldExporter.write_from_scope(FLL-imported engine with {n} inputs (ranges {RANGES[:n]}), writer, values={v}, scope={sc.name})",
+                                        {"kind": "raises", "v": v, "n": n, "all": is_all, "ranges": "fll"}, lambda: cap.write_from_scope(eng, io.StringIO(), v, sc))
+                if not ok:
+                    continue
+                m = cap.captured
+                k = max(1, kroot(v, n)) if is_all else v
+                stats["shape_fll_cases"] += 1
+                stats["one_point_grids"] += k == 1
+                why = grid_content_ok(m, [k] * n, RANGES[:n])
+                if why:
+                    verdict.add_violation("fld:grid-content", f"FLL-imported engine, {'all' if is_all else 'each'} variables = {v}, {n} inputs: {why}; first row {m[0].tolist() if len(m) else None}",
+                                          {"kind": "grid", "v": v, "n": n, "all": is_all, "ranges": "fll"})
+                    stats["oracle_violations"] += 1
     # outside the quantifier: zero / negative sizes, no input variables
     elits, eindex = [], []
     for n in range(0, 4):
@@ -234,6 +286,8 @@ def shape_part(ctx, fl, verdict, stats):
                     p = int(round(pow(v, 1.0 / n)))
                 except Exception:
                     p = 0
+                if n >= 1 and v >= 1:  # inside the quantifier: covered (and guarded) by the loop above
+                    continue
                 try:
                     cap.write_from_scope(eng, io.StringIO(), v, sc)
                     expect = cap.captured.shape[0]
@@ -374,7 +428,11 @@ def check_rows(verdict, stats, what, replay, data_lines, sep, xi, xo, d, ins, ex
             for j in range(n):
                 want = exp_inputs[r][j]
                 if isinstance(want, Fraction):
-                    ok = abs(Fraction(toks[j]) - want) <= Fraction(1, 2 * 10**d) + Fraction(1, 10**9) * max(1, abs(want)) and toks[j] == fmt_num(ins[r][j], d)
+                    try:
+                        tv = Fraction(toks[j])
+                    except ValueError:  # "nan", "inf": never a grid value
+                        tv = None
+                    ok = tv is not None and abs(tv - want) <= Fraction(1, 2 * 10**d) + Fraction(1, 10**9) * max(1, abs(want)) and toks[j] == fmt_num(ins[r][j], d)
                 else:
                     g = float(ins[r][j])
                     ok = toks[j] == fmt_num(g, d) and (g == want or (math.isnan(want) and math.isnan(g)))
@@ -398,8 +456,17 @@ def text_part(ctx, fl, verdict, stats):
     lits, index = [], []
     ncases = ctx.n(200, 3000)
     max_rows = 160
+    # in every run: one-point grids (each variable = 1; all variables = v < 2**inputs) on engines built directly
+    # (Python float ranges) and on engines imported from FLL (numpy.float64 ranges), 1-4 inputs
+    forced = [(kind, n_, all_, v_) for kind in ("direct", "fll") for n_ in (1, 2, 3, 4) for all_, v_ in ((False, 1), (True, 1), (True, 2**n_ - 1))]
     for case in range(ncases):
-        engine = pick_engine(fl, rng)
+        force = forced[case] if case < len(forced) else None
+        if force:
+            engine = gen_engine(fl, rng, force[1], rng.choice([1, 2]))
+            if force[0] == "direct":
+                floatify(engine)
+        else:
+            engine = pick_engine(fl, rng)
         ivs, ovs = engine.input_variables, engine.output_variables
         n = len(ivs)
         is_all = rng.random() < 0.55
@@ -411,7 +478,9 @@ def text_part(ctx, fl, verdict, stats):
         hdr, xi, xo = (rng.random() < 0.7, rng.random() < 0.8, rng.random() < 0.85)
         d = rng.choice(DECIMALS)
         active = None
-        if rng.random() < 0.2:
+        if force:
+            is_all, v, xi = force[2], force[3], True
+        elif rng.random() < 0.2:
             flags = [rng.random() < 0.5 for _ in ivs]
             active = {iv for iv, f in zip(ivs, flags) if f}
             for iv, f in zip(ivs, flags):
@@ -426,11 +495,18 @@ def text_part(ctx, fl, verdict, stats):
         last_values = [float(np.take(iv.value, -1)) for iv in ivs]
         before = copy.deepcopy(engine)
         exporter = fl.FldExporter(separator=sep, headers=hdr, input_values=xi, output_values=xo)
-        replay = {"kind": "text", "case": case, "n": n, "engine": fl.FllExporter().to_string(before), "v": v, "scope": "all" if is_all else "each", "separator": sep,
+        replay = {"kind": "text", "case": case, "n": n, "float_ranges": not any(isinstance(iv.minimum, np.floating) for iv in ivs), "engine": fl.FllExporter().to_string(before), "v": v, "scope": "all" if is_all else "each", "separator": sep,
                   "headers": hdr, "inputs": xi, "outputs": xo, "decimals": d, "active": flags, "last_values": last_values}
-        what = f"case {case}: engine {engine.name} ({n} inputs, {len(ovs)} outputs), {'all' if is_all else 'each'} variables = {v}, sep {sep!r}, decimals {d}, headers/inputs/outputs {hdr}/{xi}/{xo}, active {flags}"
-        with fl.settings.context(decimals=d):
-            text = exporter.to_string_from_scope(engine, v, S.AllVariables if is_all else S.EachVariable, active)
+        kind_of = "numpy.float64" if any(isinstance(iv.minimum, np.floating) for iv in ivs) else "Python float"
+        what = f"case {case}: engine {engine.name} ({n} inputs with {kind_of} ranges {[(float(iv.minimum), float(iv.maximum)) for iv in ivs]}, {len(ovs)} outputs), {'all' if is_all else 'each'} variables = {v}, sep {sep!r}, decimals {d}, headers/inputs/outputs {hdr}/{xi}/{xo}, active {flags}"
+
+        def do_export():
+            with np.errstate(all="ignore"), fl.settings.context(decimals=d):
+                return exporter.to_string_from_scope(engine, v, S.AllVariables if is_all else S.EachVariable, active)
+
+        ok, text = export_call(verdict, stats, f"FldExporter(...).to_string_from_scope(engine, values={v}, scope={'AllVariables' if is_all else 'EachVariable'}) in {what}", replay, do_export)
+        if not ok:
+            continue
         ins = np.array(engine.input_values, dtype=float)
         outs = np.array(engine.output_values, dtype=float)
         p = int(round(pow(v, 1.0 / n)))
@@ -444,6 +520,8 @@ def text_part(ctx, fl, verdict, stats):
         # ---- direct oracle
         k = max(1, kroot(v, n)) if is_all else max(1, v)
         counts = [k if f else 1 for f in flags]
+        stats["one_point_grids"] += all(c == 1 for c in counts)
+        stats["cls_ranges_" + ("numpy" if kind_of.startswith("numpy") else "python")] += 1
         lines = text.split("\n")
         nviol0 = len(verdict.violations) + sum(verdict.known_hits.values())
         if text and lines[-1] != "":
@@ -477,11 +555,11 @@ def text_part(ctx, fl, verdict, stats):
                     for j, w in enumerate(row):
                         g = float(ins[r][j])
                         if isinstance(w, Fraction):
-                            okv = abs(Fraction(g) - w) <= Fraction(1, 10**12) * max(1, abs(w), abs(Fraction(ivs[j].maximum)))
+                            okv = math.isfinite(g) and abs(Fraction(g) - w) <= Fraction(1, 10**12) * max(1, abs(w), abs(Fraction(ivs[j].maximum)))
                         else:
                             okv = (math.isnan(w) and math.isnan(g)) or g == w
                         if not okv:
-                            verdict.add_violation("fld:grid-content", f"{what}: row {r} input {ivs[j].name} = {g!r}, expected {float(w)!r}", replay)
+                            verdict.add_violation("fld:grid-content", f"{what}: row {r} input {ivs[j].name} = {g!r}, the documented grid value is {float(w)!r}", replay)
                             break
                     else:
                         continue
@@ -740,6 +818,7 @@ def engine_part(ctx, fl, verdict, stats):
 
     S = fl.FldExporter.ScopeOfValues
     Spy = make_spy(fl)
+    grid_only = make_capture(fl)
     rng = ctx.rng
     lits, index = [], []
     for case in range(ctx.n(60, 600)):
@@ -779,6 +858,14 @@ def engine_part(ctx, fl, verdict, stats):
             except Exception as ex:  # noqa
                 code = err_code(ex)
             tbl = vlib.RECORDER.take()
+        if code is not None:
+            # an engine misconfiguration may make Engine.process raise (compared with the model below); building the grid may not
+            ranges = [(float(iv.minimum), float(iv.maximum)) for iv in ivs]
+            ok, _ = export_call(verdict, stats, f"FldExporter.write_from_scope (grid only, `write` stubbed) in {what}, ranges {ranges}",
+                                {"kind": "raises", "v": v, "n": n, "all": is_all, "ranges": "float", "range_values": ranges},
+                                lambda: grid_only.write_from_scope(engine, io.StringIO(), v, S.AllVariables if is_all else S.EachVariable, active))
+            if not ok:
+                continue
         stats["engine_cases"] += 1
         stats["cls_engine_" + ("error" if code else "dirty" if dirty else "fresh")] += 1
         if code is None:
@@ -843,7 +930,7 @@ def run(ctx, build, verdict, ev):
                  "switches x separator x decimals x active subset, whole text; (c) random reader texts (comments, blank lines, whitespace of every ASCII kind, skipped lines, extra columns, "
                  "too few / ragged / non-numeric / empty); (d) enginelib engines (General activation, algebraic terms, integral and weighted defuzzifiers, lock-previous/default/lock-range, half of them holding state from earlier runs) x small grids: numeric matrix and text computed from the engine model alone.  distinct_nontrivial = measured number of distinct (scope, v, n) / (engine, configuration, exported text) / (engine, configuration, reader text, result) keys; the %d edge cases (v <= 0, no inputs) are not counted"
                  % ("1..300 + perfect powers <= 2000 and neighbours" if ctx.tier == "quick" else "1..2000", ctx.n(4096, 20000), stats["each_skipped_too_large"], stats["edge_cases"]))
-    c["distribution"] = {k: v for k, v in stats.items() if k.startswith(("cls_", "scalar_mode")) or k in ("shape_cases", "edge_cases", "text_cases", "reader_cases", "engine_cases", "engine_rows", "rows_total", "text_rows", "reader_rows", "each_skipped_too_large")}
+    c["distribution"] = {k: v for k, v in stats.items() if k.startswith(("cls_", "scalar_mode")) or k in ("one_point_grids", "shape_fll_cases", "export_raises", "shape_cases", "edge_cases", "text_cases", "reader_cases", "engine_cases", "engine_rows", "rows_total", "text_rows", "reader_rows", "each_skipped_too_large")}
     c["correspondence_mismatches"] = len(mism)
     c["oracle_violations"] = stats["oracle_violations"]
     c["all_variables_root_mismatches"] = [{"v": v, "n": n, "values_per_input": g, "documented_k": w, "rows": r} for v, n, g, w, r in stats["root_bad"]]
@@ -863,14 +950,25 @@ def replay(ctx, data):
     for v in data.get("violations", []):
         print(v["signature"], "-", v["what"][:600])
         r = v["replay"]
-        if r.get("kind") in ("root", "each", "grid"):
+        if r.get("kind") == "raises":
+            eng = shape_engine_fll(fl, r["n"]) if r.get("ranges") == "fll" else shape_engine(fl, r["n"])
+            try:
+                cap = make_capture(fl)
+                cap.write_from_scope(eng, io.StringIO(), r["v"], S.AllVariables if r.get("all") else S.EachVariable)
+                print(f"  now: {cap.captured.shape[0]} rows, first {cap.captured[0].tolist()}")
+            except Exception as ex:  # noqa
+                print("  now raises", type(ex).__name__, ex)
+        elif r.get("kind") in ("root", "each", "grid"):
             cap = make_capture(fl)
             sc = S.EachVariable if r.get("kind") == "each" or r.get("all") is False else S.AllVariables
-            cap.write_from_scope(shape_engine(fl, r["n"]), io.StringIO(), r["v"], sc)
+            with np.errstate(all="ignore"):
+                cap.write_from_scope((shape_engine_fll if r.get("ranges") == "fll" else shape_engine)(fl, r["n"]), io.StringIO(), r["v"], sc)
             m = cap.captured
-            print(f"  now: {m.shape[0]} rows, {[len(set(m[:, j].tolist())) for j in range(m.shape[1])]} values per input; documented k = {kroot(r['v'], r['n'])}")
+            print(f"  now: first row {m[0].tolist()}; {m.shape[0]} rows, {[len(set(m[:, j].tolist())) for j in range(m.shape[1])]} values per input; documented k = {kroot(r['v'], r['n'])}")
         elif r.get("kind") == "text":
             e = fl.FllImporter().from_string(r["engine"])
+            if r.get("float_ranges"):
+                floatify(e)
             for iv, lv in zip(e.input_variables, r["last_values"]):
                 iv.value = lv
             act = {iv for iv, f in zip(e.input_variables, r["active"]) if f}
